@@ -29,7 +29,7 @@
 (* FOUR SCHEMES over the same steps (what the three code paths return):    *)
 (*   FnPath   fn:path(n)                                                   *)
 (*   DocPath  node.path: "/" + steps from the (real or implied) document;  *)
-(*            sound for R1, R2, R4, R5; NOT sound for a fragment (R3), where   *)
+(*            sound for R1, R2, R4, R5; NOT sound for a fragment (R3), where*)
 (*            "/" is the parentless element -- that is why fn:path has    *)
 (*            the root() form (invariant FragmentNeedsRootFn)              *)
 (*   RelPath  etree_iter_paths(root): "." + steps below the root element   *)
